@@ -11,6 +11,13 @@ Two kinds of cases.
           delegate): engine calls, the engine's raw output and the emitted rows are observed.
           Independently a dateutil recurrence is built straight from the case's keywords
           (name to name) and its occurrences are the oracle for the rows.
+Third kind (round 3): session - a HISTORY of several schedules in one process (several generate_data runs,
+          several objects / fields per recipe, direct CalendarRule calls advanced in turn) whose date values are
+          drawn from a small pool of instants and spelled in different zones, types and precisions; every
+          schedule is judged by the reference recurrence (and the model) of its OWN keywords.
+Engine model (round 3): whenever the real engine produced the values (recipe and session cases), the model's
+          own recurrence engine (Schedule.v: rr_occ / rs_occ, proved exact in ScheduleP.v) is evaluated on the
+          engine calls and compared with dateutil's raw output, inside the fragment it covers.
 """
 import calendar
 import datetime as _dtm
@@ -28,19 +35,30 @@ from . import common as C
 PROP = "C15"
 MODEL = "Schedule"
 SHARD = 150
+SKIPPED_FN = "engine_not_compared"   # evidence: cases whose engine output was NOT compared with the Gallina recurrence
 CASE_TIMEOUT = 30
 RULE = ("cases: (direct) CalendarRule(**kw) with recording stand-ins for rrule/rruleset, every keyword "
         "present/absent, well-typed and malformed values, nested rules; compared: engine-call tree, values of "
         "next(), exception class; (recipe) Schedule.Event through generate_data with count / for_each, start dates "
-        "uniform over 2019-2030, several zones, date and datetime forms, include/exclude nesting <= 2; compared: "
+        "uniform over 2019-2030 plus year ends, leap days and century years 1600-2400, several zones, date and datetime forms, include/exclude nesting <= 2; compared: "
         "engine-call tree, rows vs. recorded engine output (model) and rows vs. an independently built dateutil "
-        "recurrence (oracle).  non-trivial: the rule was constructed and at least one by*/until/include/exclude/"
-        "interval keyword was given; distinct by case hash")
+        "recurrence (oracle); dateutil's raw output vs. the Gallina recurrence engine (yearly..daily rules and rule "
+        "sets of one zone; `outside_model_fragment` counts the cases where that comparison did not apply); (session) "
+        "2-10 schedules in one process over 1-3 steps (recipes with several objects / interleaved fields, direct calls "
+        "advanced in turn), date values spelled in different zones / types / precisions for the same instants; "
+        "every schedule compared with the reference and the model of its own keywords.  non-trivial: the rule was "
+        "constructed and at least one by*/until/include/exclude/interval keyword was given (session: two schedules "
+        "produced rows and two differently spelled values denote one instant); distinct by case hash")
 TRUSTED = ["harness/c15.py: recording stand-ins / subclasses put in place of Schedule.rrule and Schedule.rruleset "
            "with unittest.mock.patch.object; independent reference recurrence built with dateutil from the case",
            "dateutil.parser.parse evaluated by the harness supplies the model's parser table"]
 ASSUMPTIONS = ["engine_is_rfc5545: dateutil.rrule/rruleset yield the RFC 5545 occurrences of the keyword arguments "
-               "they are given (Section hypothesis of C15_event_emits_exactly_partial; dateutil itself is not verified)",
+               "they are given (hypothesis of C15_event_emits_exactly_partial; dateutil itself is not verified).  Inside "
+               "the fragment of the Gallina engine model (freq yearly..daily, interval, count, until, bymonth, bymonthday, "
+               "byyearday, byweekday with ordinals, byhour/byminute/bysecond as times of day, rule sets in one zone) the "
+               "hypothesis is replaced by the model (C15_rrule_exact, C15_ruleset_exact) plus its per-run comparison "
+               "with dateutil's output (C15_engine_check_sound); hourly and finer rules, bysetpos/byweekno/byeaster and "
+               "mixed-zone rule sets remain under the hypothesis",
                "dateutil.parser.parse and datetime.now() are inputs of the model (function argument / value)"]
 EXHAUSTIVE = {"quick": False, "thorough": False}
 
@@ -140,6 +158,10 @@ def rand_day(rng):
     if r < 0.14:   # leap days and month ends
         return rng.choice([date(2020, 2, 29), date(2024, 2, 29), date(2028, 2, 29), date(2023, 2, 28),
                            date(2021, 3, 31), date(2022, 1, 31), date(2025, 4, 30), date(2024, 3, 1)])
+    if r < 0.17:   # century years (leap: 2000, 2400; not leap: 1900, 2100), far past and future
+        return rng.choice([date(1900, 2, 28), date(1900, 3, 1), date(1899, 12, 31), date(2000, 2, 29), date(1999, 12, 31),
+                           date(2100, 2, 28), date(2099, 12, 31), date(2100, 12, 31), date(2096, 2, 29), date(2104, 2, 29),
+                           date(2400, 2, 29), date(1896, 2, 29), date(1970, 1, 1), date(1600, 2, 29), date(2199, 12, 30)])
     return date.fromordinal(rng.randint(d0, d1))
 
 
@@ -660,6 +682,11 @@ def generate(rng, tier):
     for key in DOC_INT_KEYS:
         for _ in range(2 if nq else 30):
             cases.append(gen_recipe_single(rng, key))
+    # histories: several schedules in one process, date values equal as instants, spelled differently
+    for _ in range(160 if nq else 4000):
+        cases.append(gen_session(rng))
+    for _ in range(40 if nq else 1000):
+        cases.append(gen_session(rng, general=True))
     return cases
 
 
@@ -726,6 +753,168 @@ def gen_recipe_single(rng, key):
     v = rng.randint(lo, hi)
     kw = [["freq", L("str", FREQS[freq_i].lower())], ["start_date", e], [key, rng.choice([L("int", v), L("str", str(v))])]]
     return {"kind": "recipe", "kw": kw, "mode": {"count": rng.choice([2, 3, 5])}}
+
+
+
+# ================================================================ sessions: several schedules in one process
+# Every schedule's output is a function of its OWN keywords.  A session is a history: several
+# generate_data runs (each with several objects using Schedule.Event) and direct CalendarRule calls
+# in ONE process, whose start / until / include / exclude values are drawn from a small pool of
+# instants and spelled in different zones, types (native value / string) and precisions (date vs
+# datetime at midnight).  Each event is judged by the reference recurrence of its own keywords.
+SESSION_ZONES = [0, 0, -43200, -28800, -18000, -12600, 3600, 19800, 20700, 32400, 43200, 50400]
+
+
+def spell(rng, T, allow_date=True, native_only=False):
+    """a keyword value denoting the instant T (aware, whole seconds): random zone, type, precision"""
+    Tu = T.astimezone(UTC)
+    forms = ["native_tz", "native_tz", "native_tz", "native_naive", "str_tz", "str_tz", "str_utc"]
+    if native_only:
+        forms = ["native_tz", "native_tz", "native_naive"]
+    if allow_date and (Tu.hour, Tu.minute, Tu.second) == (0, 0, 0):
+        forms += ["date", "datestr"] if not native_only else ["date"]
+    f = rng.choice(forms)
+    if f == "date":
+        return lit_date(Tu.date())
+    if f == "datestr":
+        return L("str", Tu.date().isoformat())
+    if f == "native_naive":
+        return lit_dt(Tu.replace(tzinfo=None))
+    if f == "str_utc":
+        return L("str", Tu.replace(tzinfo=None).isoformat(sep=rng.choice(["T", " "])) + rng.choice(["", "Z", "+00:00"]))
+    z = rng.choice(SESSION_ZONES)
+    loc = Tu.astimezone(timezone(timedelta(seconds=z)))
+    if f == "native_tz":
+        return lit_dt(loc)
+    s = loc.replace(tzinfo=None).isoformat(sep=rng.choice(["T", " "]))
+    return L("str", s + (rng.choice(["Z", "+00:00"]) if z == 0 else fmt_off(z)))
+
+
+def _add_months(T, k):
+    y, m = divmod(T.year * 12 + T.month - 1 + k, 12)
+    try:
+        return T.replace(year=y, month=m + 1)
+    except ValueError:
+        return T.replace(year=y, month=m + 1, day=28)
+
+
+def gen_session_event(rng, pool, how):
+    """one Schedule.Event whose date-valued keywords are spellings of instants of the pool"""
+    freq_i = rng.choice([0, 1, 1, 1, 2, 3, 3, 4])
+    T = pool[0] if rng.random() < 0.6 else rng.choice(pool)
+    fname = FREQS[freq_i]
+    kw = [["freq", L("str", rng.choice([fname.lower(), fname, fname.capitalize()]))],
+          ["start_date", spell(rng, T, allow_date=freq_i < 4)]]
+    interval = 1
+    if rng.random() < 0.25:
+        interval = rng.choice([2, 3])
+        kw.append(["interval", L("int", interval)])
+    filtered = False
+    if rng.random() < 0.25 and freq_i <= 3:
+        filtered = True
+        if freq_i == 3:
+            kw.append(["byweekday", L("str", rng.choice(["MO,WE,FR", "TU, TH", "SA,SU", "mo,tu,we,th,fr"]))])
+        elif freq_i == 2:
+            kw.append(["byweekday", L("str", rng.choice(["MO", "TU,FR", "SU", "we, sa"]))])
+        elif freq_i == 1:
+            kw.append(rng.choice([["bymonthday", L("int", rng.choice([1, 15, 28, -1]))],
+                                  ["byweekday", L("str", rng.choice(["MO(+1)", "FR(-1)", "TU(+2), TH(-1)"]))]]))
+        else:
+            kw.append(["bymonth", int_forms(rng, some(rng, T.month, list(range(1, 13)), 2), how != "recipe_count")])
+    later = [x for x in pool if x > T]
+    n_avail = None
+    if later and rng.random() < 0.45:
+        U = rng.choice(later)
+        kw.append(["until", spell(rng, U, allow_date=rng.random() < 0.5)])
+        bounded = True
+    else:
+        c = rng.choice([2, 3, 4, 5, 8])
+        kw.append(["count", L("int", c)])
+        bounded = True
+        n_avail = c
+    if freq_i <= 3 and rng.random() < 0.3:
+        key = rng.choice(["exclude", "include"])
+        X = rng.choice(pool)
+        leaf = lambda: spell(rng, rng.choice(pool), allow_date=True, native_only=True)
+        if how == "direct" and rng.random() < 0.5:
+            kw.append([key, L("seq", [leaf() for _ in range(rng.choice([1, 2, 3]))], tuple=rng.random() < 0.5)])
+        else:
+            kw.append([key, spell(rng, X, allow_date=True, native_only=True)])
+        if key == "exclude":
+            n_avail = None
+        elif n_avail is not None:
+            n_avail = n_avail       # an include never removes occurrences
+    head, tail = kw[:1], kw[1:]
+    rng.shuffle(tail)
+    ev = {"kw": head + tail}
+    if how == "direct":
+        ev["mode"] = {"count": rng.choice([1, 2, 3]) if n_avail is None else rng.randint(1, n_avail)}
+    elif n_avail is not None and not filtered and rng.random() < 0.6:
+        ev["mode"] = {"count": rng.randint(1, n_avail)}
+    else:
+        ev["mode"] = "for_each"
+    return ev
+
+
+def gen_session(rng, general=False):
+    d = rand_day(rng)
+    r = rng.random()
+    if r < 0.35:
+        hms = (0, 0, 0)
+    elif r < 0.5:
+        hms = rng.choice([(4, 0, 0), (20, 0, 0), (23, 30, 0), (0, 30, 0), (12, 0, 0)])
+    else:
+        hms = (rng.randint(0, 23), rng.choice([0, 15, 30, 45, rng.randint(0, 59)]), rng.choice([0, 0, rng.randint(0, 59)]))
+    T0 = datetime(d.year, d.month, d.day, *hms, tzinfo=UTC)
+    pool = [T0, T0 + timedelta(days=1), T0 + timedelta(days=7), _add_months(T0, 1), _add_months(T0, 3),
+            T0 + timedelta(hours=rng.choice([1, 5, 24 * 14]))]
+    steps = []
+    for _ in range(rng.choice([1, 2, 2, 3])):
+        how = "direct" if rng.random() < 0.25 else "recipe"
+        evs = []
+        for _ in range(rng.choice([1, 2, 2, 3])):
+            if general and rng.random() < 0.5:
+                # an unrelated, arbitrary schedule in between (state must not leak from or into it)
+                c = gen_recipe_case(rng)
+                if how == "direct":
+                    c["kw"] = [[k, v] for k, v in c["kw"] if k in ("freq", "start_date", "interval", "count")]
+                    c["mode"] = {"count": 2}
+                if kwget(c["kw"], "start_date") is None or _ref_falsy(kwget(c["kw"], "start_date")):
+                    c["kw"] = [[k, v] for k, v in c["kw"] if k != "start_date"]
+                    c["kw"].append(["start_date", spell(rng, T0, allow_date=False)])
+                evs.append({"kw": c["kw"], "mode": c["mode"]})
+            else:
+                evs.append(gen_session_event(rng, pool, how))
+            if rng.random() < 0.12:
+                evs.append(json.loads(json.dumps(evs[-1])))       # the very same schedule once more
+        st = {"how": how, "events": evs}
+        if rng.random() < 0.4:
+            # recipe: schedules with `count` become FIELDS of one object (built together, advanced row by row
+            # in turn); direct: all rules are built first and then advanced in turn
+            st["interleave"] = True
+            if how == "recipe":
+                cnt = [ev["mode"]["count"] for ev in evs if ev["mode"] != "for_each"]
+                for ev in evs:
+                    if ev["mode"] != "for_each":
+                        ev["mode"] = {"count": min(cnt)}
+        steps.append(st)
+    if sum(len(s["events"]) for s in steps) < 2:
+        steps.append({"how": "recipe", "events": [gen_session_event(rng, pool, "recipe")]})
+    return {"kind": "session", "steps": steps}
+
+
+def session_events(case):
+    for si, st in enumerate(case["steps"]):
+        for ei, ev in enumerate(st["events"]):
+            yield si, ei, st["how"], ev
+
+
+def _event_case(ev, how):
+    """the single-schedule view of a session event (what `reference`, the printers and the model see)"""
+    c = {"kind": "recipe" if how == "recipe" else "direct_engine", "kw": ev["kw"], "mode": ev["mode"]}
+    if how == "direct":
+        c["memo"] = False
+    return c
 
 
 # ================================================================ implementation side
@@ -897,6 +1086,8 @@ def run_impl(case):
         return {"skip": "Schedule module no longer binds the names rrule / rruleset / CalendarRule"}
     if case["kind"] == "direct":
         return _run_direct(case, S, mock)
+    if case["kind"] == "session":
+        return _run_session(case, S, mock)
     return _run_recipe(case, S, mock)
 
 
@@ -1134,6 +1325,128 @@ def _run_recipe(case, S, mock):
     return obs
 
 
+
+def session_objects(st):
+    """-> list of objects; an object is a list of event indexes (several only when interleaved:
+    consecutive `count` schedules with the same count are the fields of one object)"""
+    objs = []
+    for i, ev in enumerate(st["events"]):
+        if (st.get("interleave") and objs and ev["mode"] != "for_each" and
+                st["events"][objs[-1][-1]]["mode"] == ev["mode"]):
+            objs[-1].append(i)
+        else:
+            objs.append([i])
+    return objs
+
+
+def render_session_recipe(st):
+    events = st["events"]
+    lines = ["- snowfakery_version: 3", "- plugin: snowfakery.standard_plugins.Schedule"]
+    for oi, idxs in enumerate(session_objects(st)):
+        ev = events[idxs[0]]
+        lines.append(f"- object: E{oi}")
+        if ev["mode"] == "for_each":
+            lines += ["  for_each:", "    var: D", "    value:", "      Schedule.Event:"] + _yaml_kw(ev["kw"], 8) + \
+                     ["  fields:", f"    d{idxs[0]}: ${{{{D}}}}"]
+        else:
+            lines += [f"  count: {ev['mode']['count']}", "  fields:"]
+            for i in idxs:
+                lines += [f"    d{i}:", "      Schedule.Event:"] + _yaml_kw(events[i]["kw"], 8)
+    return "\n".join(lines) + "\n"
+
+
+def _take(obj, n, eo):
+    """n more values of a directly constructed rule"""
+    if obj is None or "err" in eo:
+        return
+    vals = eo.setdefault("values", [])
+    try:
+        for _ in range(n):
+            vals.append(enc_value(next(obj)))
+    except StopIteration:
+        eo["err"] = "StopIteration"
+    except BaseException as e:
+        if isinstance(e, (KeyboardInterrupt, SystemExit)) or type(e).__name__ == "_CaseTimeout":
+            raise
+        eo.update(err=C.canon_exc(e), msg=str(e)[:200])
+
+
+def _run_session(case, S, mock):
+    """all steps in THIS process, in order; per event: rows, engine-call tree, raw engine output"""
+    from snowfakery import generate_data
+    now = datetime.now().replace(tzinfo=UTC)
+    # the engine alone must be fast for every event (see _run_recipe)
+    def all_refs():
+        return [[reference_all(_event_case(ev, st["how"]), now) for ev in st["events"]] for st in case["steps"]]
+    refs, slow = _guarded(all_refs, REF_LIMIT)
+    if slow:
+        return {"skip": f"the engine alone needs more than {REF_LIMIT}s for these arguments", "slow_engine": True}
+    obs = {"steps": [], "ref": refs}
+    t0 = _time.time()
+    for st in case["steps"]:
+        RecRRule, RecRuleSet, state, enc_set = _make_recorders(delegate=True)
+        so = {"events": [{} for _ in st["events"]]}
+        with mock.patch.object(S, "rrule", RecRRule), mock.patch.object(S, "rruleset", RecRuleSet):
+            if st["how"] == "recipe":
+                try:
+                    text = render_session_recipe(st)
+                except ValueError as e:
+                    return {"skip": f"case cannot be rendered: {e}"}
+                so["recipe"] = text
+                out = io.StringIO()
+                try:
+                    generate_data(io.StringIO(text), output_file=out, output_format="json")
+                    txt = out.getvalue()
+                    rows = json.loads(txt) if txt.strip() else []
+                    so["ok"] = True
+                    for oi, idxs in enumerate(session_objects(st)):
+                        for i in idxs:
+                            vals = [_parse_out(r.get(f"d{i}")) for r in rows if r.get("_table") == f"E{oi}"]
+                            so["events"][i].update(ok=True, n_rows=len(vals), values=vals[:FOR_EACH_CAP + 1])
+                except BaseException as e:
+                    if isinstance(e, (KeyboardInterrupt, SystemExit)) or type(e).__name__ == "_CaseTimeout":
+                        raise
+                    so["err"] = C.canon_exc(e)
+                    so["msg"] = str(e)[:200]
+            else:
+                so["ok"] = True
+                objs = []
+                for ev, eo in zip(st["events"], so["events"]):
+                    try:
+                        objs.append(S.CalendarRule(**{k: _py_value(v, S) for k, v in ev["kw"]}))
+                    except BaseException as e:
+                        if isinstance(e, (KeyboardInterrupt, SystemExit)) or type(e).__name__ == "_CaseTimeout":
+                            raise
+                        eo.update(err=C.canon_exc(e), msg=str(e)[:200])
+                        objs.append(None)
+                    if not st.get("interleave"):
+                        _take(objs[-1], ev["mode"]["count"], eo)
+                if st.get("interleave"):            # all rules exist; advance them in turn
+                    for r in range(max(ev["mode"]["count"] for ev in st["events"])):
+                        for ev, eo, obj in zip(st["events"], so["events"], objs):
+                            if r < ev["mode"]["count"]:
+                                _take(obj, 1, eo)
+                for eo in so["events"]:
+                    if "err" not in eo:
+                        eo.update(ok=True, n_rows=len(eo.get("values", [])))
+                        eo.setdefault("values", [])
+        so["engine_err"] = state["engine_err"]
+        # which recorded rule set belongs to which event: rules are constructed in object order, the
+        # nested ones of an event before the event's own (they are its arguments)
+        want = [sum(1 for _ in walk_events(ev["kw"])) for ev in st["events"]]
+        if so.get("ok") and len(state["sets"]) == sum(want) and not state["engine_err"]:
+            k = 0
+            for eo, w in zip(so["events"], want):
+                k += w
+                if eo.get("ok") or eo.get("err") == "StopIteration":
+                    top = state["sets"][k - 1]
+                    eo["tree"] = enc_set(top)
+                    eo["stream"] = [enc_dt(x) for x in top._sfv["yielded"][:FOR_EACH_CAP + 1]]
+        obs["steps"].append(so)
+    obs["impl_s"] = round(_time.time() - t0, 3)
+    return obs
+
+
 # ================================================================ the independent reference recurrence
 class Reject(Exception):
     """the recipe is invalid: Schedule.Event must fail"""
@@ -1354,7 +1667,7 @@ FOR_EACH_CAP = 600
 
 def reference(case, quirks, now):
     """expected rows for the case under the given set of (known-defect) quirks"""
-    memo = case["mode"] != "for_each"
+    memo = case.get("memo", case["mode"] != "for_each")
     try:
         rs, prec, start = ref_build(case["kw"], quirks, now, memo)
     except Reject as e:
@@ -1383,6 +1696,8 @@ def reference(case, quirks, now):
 
 
 def applicable_quirks(case):
+    if case.get("kind") == "session":
+        return ["for_each_dt"] if any(ev["mode"] == "for_each" for _, _, _, ev in session_events(case)) else []
     return ["for_each_dt"] if case["mode"] == "for_each" else []
 
 
@@ -1542,6 +1857,8 @@ def _has_control(case):
 def coq_case(case, obs):
     if not isinstance(obs, dict) or obs.get("skip"):
         return None
+    if case["kind"] == "session":
+        return _coq_session(case, obs)
     if _has_control(case):
         return None          # outside the ASCII fragment of the string model
     direct = case["kind"] == "direct"
@@ -1551,9 +1868,26 @@ def coq_case(case, obs):
             now = obs["tree"]["calls"][0][1]["rr"]["dtstart"]
         except Exception:
             now = None
+    args = _coq_event(case, obs, direct, now)
+    return None if args is None else "CEvent " + args
+
+
+def _coq_event(case, obs, direct, now, real_engine=None, refs=None):
+    """the arguments of CEvent / ECase for one schedule, or None.  real_engine: the stream was produced
+    by dateutil itself (not by a stand-in) and is compared with the model's recurrence engine"""
+    if real_engine is None:
+        real_engine = not direct
+    refs = refs if refs is not None else (obs.get("ref") or {})
+    eng = "None"
+    if real_engine and not obs.get("engine_err"):
+        if obs.get("ok"):
+            # for_each consumes the rule until it stops; `count: n` / n calls of next() ask for n values
+            eng = "(Some true)" if case.get("mode") == "for_each" else "(Some false)"
+        elif "not_enough" in refs.get("", {}):
+            eng = "(Some true)"          # "Could not generate enough values": the rule was exhausted
     now_t = c_dt([now[0], now[1], None]) if now else "(mkDT 0 0 None)"
     if direct:
-        mode = f"(MDirect {C.cnat(case.get('n', 2))})"
+        mode = f"(MDirect {C.cnat(case['mode']['count'] if 'mode' in case else case.get('n', 2))})"
         via, memo = "false", "false"
     else:
         mode = "MForEach" if case["mode"] == "for_each" else f"(MCount {C.cnat(case['mode']['count'])})"
@@ -1563,7 +1897,7 @@ def coq_case(case, obs):
             return None
         if direct and "next_err" in obs:
             return None
-        if not direct and obs.get("n_sets") != obs.get("sets_expected"):
+        if not direct and "sets_expected" in obs and obs.get("n_sets") != obs.get("sets_expected"):
             return None      # rules were constructed more than once (caching is another property's subject)
         if obs.get("n_rows", 0) > 250:
             return None      # keep the Coq terms small; the oracle still covers the case
@@ -1579,7 +1913,32 @@ def coq_case(case, obs):
             exp = "XEngine"
         else:
             exp = "XErrAny"
-    return (f"CEvent {via} {memo} {parse_table(case)} {now_t} {c_kw(case['kw'])} {mode} {stream} {exp}")
+    return (f"{via} {memo} {parse_table(case)} {now_t} {c_kw(case['kw'])} {mode} {stream} {eng} {exp}")
+
+
+def _coq_session(case, obs):
+    """every schedule of the session is checked against the (history-free) model on its own"""
+    terms = []
+    for si, (st, so) in enumerate(zip(case["steps"], obs["steps"])):
+        if so.get("engine_err"):
+            continue
+        for ei, (ev, eo) in enumerate(zip(st["events"], so["events"])):
+            ec = _event_case(ev, st["how"])
+            if _has_control(ec):
+                continue
+            direct = st["how"] == "direct"
+            if st["how"] == "recipe" and not so.get("ok"):
+                continue                       # which schedule made the recipe fail is not observed
+            if direct and not eo.get("ok") and "tree" not in eo and eo.get("err") == "StopIteration":
+                continue
+            if not eo.get("ok") and "err" not in eo:
+                continue
+            args = _coq_event(ec, eo, direct, None, real_engine=True, refs=obs["ref"][si][ei])
+            if args is not None:
+                terms.append(f"ECase {args}")
+    if not terms:
+        return None
+    return f"CSession {C.clist(terms)}"
 
 
 # ================================================================ property oracle (implementation only)
@@ -1625,7 +1984,21 @@ def oracle(case, obs):
         return None
     if case["kind"] == "direct":
         return _oracle_direct(case, obs)
-    refs = obs.get("ref") or {}
+    if case["kind"] == "session":
+        return _oracle_session(case, obs)
+    return _oracle_event(obs, obs.get("ref") or {}, case["kw"])
+
+
+def _included_datetimes(kw):
+    """does `include` (also of a nested schedule) name datetimes?  Their local date need not follow the
+    order of the instants (2022-03-23 21:30 -03:30 is later than 2022-03-24 00:00 UTC)"""
+    def has_dt(e):
+        return e["t"] == "dt" or (e["t"] == "seq" and any(has_dt(x) for x in e["v"]))
+    return any(k == "include" and has_dt(v) for ev_kw in walk_events(kw) for k, v in ev_kw)
+
+
+def _oracle_event(obs, refs, kw):
+    """rows of ONE schedule against the reference recurrence of its own keywords"""
     base = refs.get("", {})
     if obs.get("ok"):
         vals = obs["values"]
@@ -1640,7 +2013,7 @@ def oracle(case, obs):
                 ins = [_instant(v) for v in vals]
                 if any(a > b for a, b in zip(ins, ins[1:])):
                     return f"order: values are not in chronological order: {[_fmt(v) for v in vals[:6]]}"
-            elif vals:
+            elif vals and not _included_datetimes(kw):
                 if any(a[1] > b[1] for a, b in zip(vals, vals[1:])):
                     return f"order: dates are not in chronological order: {[_fmt(v) for v in vals[:6]]}"
         return None
@@ -1651,6 +2024,33 @@ def oracle(case, obs):
                     f"got {_show(_outcome(obs))}")
     return (f"mismatch: Schedule.Event output differs from the independently built recurrence: expected {_show(base)} "
             f"got {_show(_outcome(obs))} (engine_err={obs.get('engine_err')}, msg={obs.get('msg')})")
+
+
+def _oracle_session(case, obs):
+    """every schedule of the history against the reference recurrence of ITS OWN keywords; the first
+    event that deviates is reported (a `quirk[..]` message only if nothing else deviates)"""
+    quirk = None
+    for si, (st, so) in enumerate(zip(case["steps"], obs["steps"])):
+        refs = obs["ref"][si]
+        if st["how"] == "recipe" and not so.get("ok"):
+            if any(any(k in r.get("", {}) for k in ("reject", "engine_reject", "not_enough")) for r in refs):
+                continue
+            return (f"mismatch: step {si} (a recipe with {len(st['events'])} schedules, each valid on its own) failed: "
+                    f"{so.get('err')} {so.get('msg')}")
+        for ei, (ev, eo) in enumerate(zip(st["events"], so["events"])):
+            if st["how"] == "direct" and eo.get("err") == "StopIteration":
+                eo = dict(eo, err="DGE")       # "not enough values", said the direct way
+            msg = _oracle_event(eo, refs[ei], ev["kw"])
+            if msg is None:
+                continue
+            where = (f"step {si} event {ei} of a session of {sum(len(x['events']) for x in case['steps'])} schedules "
+                     f"(keywords {json.dumps(ev['kw'])[:300]})")
+            if msg.startswith("quirk["):
+                quirk = quirk or msg
+                continue
+            head, rest = msg.split(":", 1)
+            return f"session-{head} [{where}]:{rest}"
+    return quirk
 
 
 def _show(r):
@@ -1715,10 +2115,102 @@ def _oracle_direct(case, obs):
 
 
 def nontrivial(case, obs):
-    if not isinstance(obs, dict) or not obs.get("ok"):
+    if not isinstance(obs, dict):
+        return False
+    if case["kind"] == "session":
+        # at least two schedules produced rows and two of the session's date values denote the same instant
+        done = sum(1 for so in obs.get("steps", []) for eo in so.get("events", []) if eo.get("ok"))
+        return done >= 2 and _session_shared_instants(case) > 0
+    if not obs.get("ok"):
         return False
     keys = {k for k, _ in case["kw"]}
     return bool(keys & (set(INT_KEYS) | {"byweekday", "until", "include", "exclude", "interval"}))
+
+
+
+def _date_values(case):
+    """(instant in seconds UTC, spelling class) of every date-valued keyword of a session"""
+    from dateutil import parser as duparser
+    out = []
+
+    def leaf(e, where):
+        t = e["t"]
+        try:
+            if t == "date":
+                d = to_py_date(e["v"])
+                out.append((int(datetime(d.year, d.month, d.day, tzinfo=UTC).timestamp()), "date", where))
+            elif t == "dt":
+                d = to_py_dt(e["v"])
+                cls = "native-naive" if d.tzinfo is None else ("native-utc" if d.utcoffset() == timedelta(0) else
+                                                               f"native-offset{fmt_off(int(d.utcoffset().total_seconds()))}")
+                out.append((int((d if d.tzinfo else d.replace(tzinfo=UTC)).timestamp()), cls, where))
+            elif t == "str" and e["v"]:
+                d = duparser.parse(e["v"])
+                cls = "str-date" if _is_date_only(e["v"]) else ("str-offset" if d.utcoffset() not in (None, timedelta(0)) else "str-utc")
+                out.append((int((d if d.tzinfo else d.replace(tzinfo=UTC)).timestamp()), cls, where))
+            elif t == "seq":
+                for x in e["v"]:
+                    leaf(x, where)
+            elif t == "event":
+                for k, v in e["kw"]:
+                    if k in DATE_KEYS:
+                        leaf(v, k)
+        except Exception:
+            pass
+    for _, _, _, ev in session_events(case):
+        for k, v in ev["kw"]:
+            if k in DATE_KEYS:
+                leaf(v, k)
+    return out
+
+
+def _session_shared_instants(case):
+    """number of pairs of date values (in different spellings) that denote the same instant"""
+    by = {}
+    for inst, cls, where in _date_values(case):
+        by.setdefault(inst, []).append((cls, where))
+    return sum(1 for v in by.values() if len({c for c, _ in v}) >= 2)
+
+
+def _session_stats(cases, obss):
+    n_ev = Counter()
+    hows = Counter()
+    modes = Counter()
+    spell_pairs = Counter()
+    shared = Counter()
+    outcomes = Counter()
+    for c, o in zip(cases, obss):
+        evs = list(session_events(c))
+        n_ev[len(evs)] += 1
+        hows["+".join(st["how"] for st in c["steps"])] += 1
+        for _, _, how, ev in evs:
+            modes[how + "/" + ("for_each" if ev["mode"] == "for_each" else "count")] += 1
+        by = {}
+        for inst, cls, where in _date_values(c):
+            by.setdefault(inst, set()).add((cls, where))
+        k = 0
+        for v in by.values():
+            classes = sorted({x for x, _ in v})
+            if len(classes) >= 2:
+                k += 1
+                for a, b in itertools.combinations(classes, 2):
+                    a, b = re.sub(r"[+-]\d\d:\d\d$", "", a), re.sub(r"[+-]\d\d:\d\d$", "", b)
+                    spell_pairs[a + "~" + b + ("(another zone)" if a == b else "")] += 1
+            wheres = sorted({w for _, w in v})
+            if len(v) >= 2 and len(wheres) >= 2:
+                spell_pairs["where:" + "~".join(wheres)] += 1
+        shared[min(k, 4)] += 1
+        if isinstance(o, dict):
+            if o.get("skip"):
+                outcomes["skip"] += 1
+            for so in o.get("steps", []):
+                for eo in so.get("events", []):
+                    outcomes["event:" + ("ok" if eo.get("ok") else str(eo.get("err", "step-failed")))] += 1
+    inter = sum(1 for c in cases for st in c["steps"] if st.get("interleave") and len(st["events"]) > 1)
+    return {"sessions": len(cases), "schedules_per_session": dict(n_ev), "step_kinds": dict(hows), "event_modes": dict(modes),
+            "steps_with_interleaved_schedules": inter,
+            "instants_shared_by_differently_spelled_values_per_session": dict(shared),
+            "same_instant_spelling_pairs": dict(spell_pairs), "event_outcomes": dict(outcomes)}
 
 
 def stats(cases, obss):
@@ -1732,9 +2224,12 @@ def stats(cases, obss):
     nvals = Counter()
     quirks = Counter()
     slow = 0
+    sess = [(c, o) for c, o in zip(cases, obss) if c["kind"] == "session"]
     for c, o in zip(cases, obss):
         kind = c["kind"] + ("/" + ("for_each" if c.get("mode") == "for_each" else "count") if c["kind"] == "recipe" else "")
         kinds[kind] += 1
+        if c["kind"] == "session":
+            continue
         if not isinstance(o, dict):
             continue
         if o.get("ok"):
@@ -1770,10 +2265,14 @@ def stats(cases, obss):
     return {"kinds": dict(kinds), "outcomes": dict(outcomes), "keyword_counts": dict(keys), "freq": dict(freqs),
             "start_date_type": dict(starts), "start_zone": dict(zones), "nested_events": dict(depth),
             "rows_per_ok_case": dict(nvals), "cases_where_a_known_defect_changes_the_reference": dict(quirks),
-            "slow_cases_over_5s": slow}
+            "slow_cases_over_5s": slow,
+            "histories": _session_stats([c for c, _ in sess], [o for _, o in sess])}
 
 
 def shrink(case):
+    if case["kind"] == "session":
+        yield from _shrink_session(case)
+        return
     kw = case["kw"]
     keep = ("freq", "start_date") + (("count", "until") if case.get("mode") == "for_each" else ())
     for i, (k, v) in enumerate(kw):
@@ -1791,6 +2290,26 @@ def shrink(case):
         yield dict(case, mode={"count": 1})
 
 
+
+def _shrink_session(case):
+    steps = case["steps"]
+    n = sum(len(st["events"]) for st in steps)
+    if n > 1:
+        for si, st in enumerate(steps):           # drop one schedule (never the last one left)
+            for ei in range(len(st["events"])):
+                evs = st["events"][:ei] + st["events"][ei + 1:]
+                new = steps[:si] + ([dict(st, events=evs)] if evs else []) + steps[si + 1:]
+                yield dict(case, steps=new)
+    for si, st in enumerate(steps):               # drop one keyword of one schedule
+        for ei, ev in enumerate(st["events"]):
+            keep = ("freq", "start_date") + (("count", "until") if ev["mode"] == "for_each" else ())
+            for i, (k, v) in enumerate(ev["kw"]):
+                if k in keep:
+                    continue
+                ev2 = dict(ev, kw=ev["kw"][:i] + ev["kw"][i + 1:])
+                yield dict(case, steps=steps[:si] + [dict(st, events=st["events"][:ei] + [ev2] + st["events"][ei + 1:])] + steps[si + 1:])
+
+
 def directed_search(rng, disagreeing):
     out = []
     for key in DOC_INT_KEYS:
@@ -1802,6 +2321,8 @@ def directed_search(rng, disagreeing):
         out.append(gen_nested_exclusion(rng))
     for _ in range(200):
         out.append(gen_ordinal_weekdays_case(rng))
+    for _ in range(300):
+        out.append(gen_session(rng, general=rng.random() < 0.2))
     for key in INT_KEYS + ["byweekday", "interval", "count", "cache", "until"]:
         for _ in range(25):
             out.append(gen_direct_single(rng, key))
